@@ -40,6 +40,9 @@ type dscenario struct {
 	// Trailing: right behind the response head the peer sends a short frame and then stays silent with the
 	// connection open: a read beyond those bytes blocks until a deadline or Close ends it
 	Trailing bool `json:"trailing"`
+	// Cause: the context is one that records a cause of its own (WithCancelCause / WithDeadlineCause):
+	// "the context's error" is still ctx.Err() - Canceled or DeadlineExceeded -, not the cause
+	Cause bool `json:"cause"`
 }
 
 type dev struct {
@@ -304,10 +307,20 @@ func runDial(sc dscenario) []interface{} {
 	var ctx context.Context = context.Background()
 	switch sc.CtxKind {
 	case "cancel":
-		ctx, e.cancel = context.WithCancel(context.Background())
+		if sc.Cause {
+			var cc context.CancelCauseFunc
+			ctx, cc = context.WithCancelCause(context.Background())
+			e.cancel = func() { cc(errors.New("application shutdown")) }
+		} else {
+			ctx, e.cancel = context.WithCancel(context.Background())
+		}
 	case "deadline":
 		var cf context.CancelFunc
-		ctx, cf = context.WithDeadline(context.Background(), time.Now().Add(dLong/2))
+		if sc.Cause {
+			ctx, cf = context.WithDeadlineCause(context.Background(), time.Now().Add(dLong/2), errors.New("took too long"))
+		} else {
+			ctx, cf = context.WithDeadline(context.Background(), time.Now().Add(dLong/2))
+		}
 		e.cancel = cf
 	}
 	d := ws.Dialer{}
@@ -493,6 +506,12 @@ func c20(c *ctx) {
 	for i, sc := range scs {
 		sc.Key = fmt.Sprintf("dial/%d/%s/%s/%s/%s%d/%s/%v", i, sc.CtxKind, sc.Timeout, sc.DialMode, sc.PeerMode, sc.PeerAt, sc.CancelAt, sc.HoldSetDl)
 		emit(sc)
+		if sc.CtxKind != "background" && (c.thorough || i%3 == 0 || sc.PeerMode == "silent") {
+			cs := sc
+			cs.Cause = true
+			cs.Key = "c" + sc.Key
+			emit(cs)
+		}
 		if sc.DialMode == "ok" && (c.thorough || sc.PeerMode != "ok" || i%2 == 0) {
 			sc.Debug = true
 			sc.Key = "d" + sc.Key
